@@ -76,7 +76,11 @@ def resolve_noise(params):
         return (params['r_x'], params['r_y'], params['r_z'],
                 params.get('deformation_name'),
                 runner.canon(params.get('deformation_kwargs') or {}))
-    return (params[0], params[1], params[2], None, '{}')
+    # positional form of PauliErrorModel(r_x, r_y, r_z, deformation_name,
+    # deformation_kwargs): 3, 4 or 5 entries
+    return (params[0], params[1], params[2],
+            params[3] if len(params) > 3 else None,
+            runner.canon((params[4] if len(params) > 4 else None) or {}))
 
 
 def expected_from_block(block, in_runs=False):
@@ -259,10 +263,17 @@ def code_param_set(draw, cls, positional):
 def noise_param_set(draw, cls, positional):
     r = draw(st.sampled_from([(1, 0, 0), (0, 0, 1), (0.5, 0, 0.5), (1 / 3, 1 / 3, 1 / 3),
                               (0.2, 0.3, 0.5), (0.1, 0.1, 0.8), (0.25, 0.25, 0.5)]))
-    if positional:
-        return list(r)
-    d = {'r_x': r[0], 'r_y': r[1], 'r_z': r[2]}
     names = domain.get_class(cls).deformation_names
+    if positional:
+        out = list(r)
+        if names and draw(st.booleans()):
+            out.append(draw(st.sampled_from(names)))
+            if out[-1] == 'XZZX' and draw(st.booleans()):
+                out.append({'deformation_axis': draw(st.sampled_from(domain.AXES[cls]))})
+            elif draw(st.booleans()):
+                out.append({})
+        return out
+    d = {'r_x': r[0], 'r_y': r[1], 'r_z': r[2]}
     if names and draw(st.booleans()):
         d['deformation_name'] = draw(st.sampled_from(names))
         if d['deformation_name'] == 'XZZX' and draw(st.booleans()):
